@@ -14,7 +14,11 @@ Pipeline B/C: harness/cmd/styling enumerates inputs, runs the real styling.NewDe
   reference and a seeded sample of the equal ones are written as traces that carry the
   reads the decoder actually saw; TLC validates them against TrStyling (legal delivery,
   every clause of the monitor, same observations as the reference run = chunk independence;
-  batch scheme, shards validated in parallel)."""
+  batch scheme, shards validated in parallel).
+  Documents with very long lines (2^20 - 1 ... 2^22 + 1 octets, thorough ... 2^24 + 1) are
+  recorded in the run-length form ([octet, count] runs for the document, token data, info);
+  the monitor judges losslessness and chunk independence over the runs (length = sum of
+  counts, concatenation = merge, prefix test over runs); TLC sees every run of those."""
 import concurrent.futures
 import json
 import os
@@ -26,8 +30,12 @@ MC_CFG = '''CONSTANTS
   Masks <- MCMasks
   MaxTok = 2
   MaxEvents = %(maxev)d
+  RInputs <- MCRInputs
+  RMasks <- MCRMasks
+  RMaxEvents = %(rmaxev)d
 SPECIFICATION Spec
 INVARIANT C17_Lossless
+INVARIANT C17_RunsFaithful
 INVARIANT C17_WellBracketed
 PROPERTY C17_StepRules
 CHECK_DEADLOCK FALSE
@@ -37,6 +45,9 @@ TR_CFG = '''CONSTANTS
   Masks = {}
   MaxTok = 0
   MaxEvents = 0
+  RInputs = {}
+  RMasks = {}
+  RMaxEvents = 0
 SPECIFICATION TSpec
 CONSTRAINT HW
 POSTCONDITION Accepted
@@ -74,10 +85,29 @@ def text(b):
     return json.dumps(bytes(b).decode("latin1"))
 
 
+def expand(runs):
+    return b"".join(bytes([o]) * c for o, c in runs)
+
+
+def doc(meta):
+    """the document of a trace as bytes (long documents are recorded as [octet, count] runs)"""
+    return expand(meta["input_runs"]) if meta.get("input_runs") else bytes(meta["input"])
+
+
+def size(meta):
+    return sum(c for _, c in meta["input_runs"]) if meta.get("input_runs") else len(meta["input"])
+
+
+def show_runs(runs):
+    return " ".join(json.dumps(chr(o)) + ("x%d" % c if c > 1 else "") for o, c in runs) or '""'
+
+
 def show(evs):
     out = []
     for e in evs:
-        if e["ev"] == "tok":
+        if e["ev"] == "tok" and e["data"] and isinstance(e["data"][0], list):
+            out.append("[%s]%s%s" % (show_runs(e["data"]), ("/" + "|".join(e["m"])) if e["m"] else "", ("/q%d" % e["q"]) if e["q"] else ""))
+        elif e["ev"] == "tok":
             d = bytes(e["data"]).decode("latin1")
             if len(d) > 24:
                 d = d[:10] + "...(%d octets)" % len(d)
@@ -89,11 +119,13 @@ def show(evs):
 
 def cause(meta, why):
     """a coarse grouping key so that one root cause gives one replay file, not thousands"""
-    inp = bytes(meta["input"])
+    inp = doc(meta)
     reader = re.sub(r"zero-reads=\d+", "zero-reads", re.sub(r"@\d+|\[[\d,]*\]", "", meta["reader"]))
     with_data = "DataErr" in reader or "eof-with-data" in reader
     lines = inp.split(b"\n")
-    if max(len(l) for l in lines) >= 65536:
+    if max(len(l) for l in lines) >= (1 << 20) - 1:
+        feat = "line >= 1 MiB - 1"
+    elif max(len(l) for l in lines) >= 65536:
         feat = "line >= 64 KiB"
     elif b"```" in inp and any(re.match(rb"[> ]*```.", l) for l in lines[1:]):
         feat = "pre block with a line that starts like a fence"
@@ -119,7 +151,7 @@ def report(ctx, base, results, limit=12):
             total += 1
             g = groups.setdefault(cause(meta[t], why), {"n": 0, "first": None})
             g["n"] += 1
-            if g["first"] is None or len(meta[t]["input"]) < len(g["first"][2]["input"]):
+            if g["first"] is None or size(meta[t]) < size(g["first"][2]):
                 g["first"] = (k, t, meta[t], line, why)
     harness = [g for key, g in groups.items() if key[0].startswith("HARNESS")]
     if harness:
@@ -140,12 +172,15 @@ def report(ctx, base, results, limit=12):
         got = [{x: v for x, v in e.items() if x != "_line"} for e in tr[1:]]
         reads = {"cumulative_octets_after_each_read": tr[0].get("rd"), "eof": tr[0].get("eof")}
         inp = meta["input"]
-        short = text(inp) if len(inp) <= 80 else "%s... (%d octets)" % (text(inp[:20]), len(inp))
+        if meta.get("input_runs"):
+            short = "%s (%d octets)" % (show_runs(meta["input_runs"]), size(meta))
+        else:
+            short = text(inp) if len(inp) <= 80 else "%s... (%d octets)" % (text(inp[:20]), len(inp))
         what = "%s | %s, input %s, reader %s: observed %s%s (%d rejected traces of this kind: %s)" % (
             why, meta["api"], short, meta["reader"], show(got)[:400],
             (" ; whole-input read gave " + show(ref)[:400]) if ref else "", g["n"], "/".join(key[2:]))
         big = len(inp) > 2000
-        ctx.violation(what, {"family": "styling", "input": inp, "api": meta["api"], "reader": meta["reader"],
+        ctx.violation(what, {"family": "styling", "input": inp, "input_runs": meta.get("input_runs") or [], "api": meta["api"], "reader": meta["reader"],
                              "reads_seen_by_the_decoder": reads if not big else tr[0].get("eof"), "clause": why, "rejected_line": line, "rejected_event": (rej[0] if rej and not big else None),
                              "observed": got if not big else show(got), "whole_input_read": ref if not big else show(ref)})
     return total, {"/".join(k): g["n"] for k, g in groups.items()}
@@ -153,7 +188,10 @@ def report(ctx, base, results, limit=12):
 
 def selftest(ctx, drv):
     """Binding self-test: record the real decoder on a fixed input, corrupt the recording in
-    four ways; TLC must accept the original and reject every corruption."""
+    several ways; TLC must accept the original and reject every corruption.  The same for a
+    recording in the run-length form (a line of 70 000 octets): octet lost / duplicated / altered,
+    decoding ended early, line split in two tokens - rejected; the long run written as several
+    adjacent runs of the same octet - accepted."""
     case = ctx.path("selftest_case.json")
     inp = list(b"> *a* `b`\nc\n")
     json.dump({"input": inp, "api": "decoder"}, open(case, "w"))
@@ -175,19 +213,65 @@ def selftest(ctx, drv):
     m = dup(); m[0]["ref"] = json.loads(json.dumps(good[1:])); m[2]["q"] += 1; muts.append(("quote depth differs from the reference run", m))
     m = dup(); m[0]["rd"] = [len(inp) - 1, len(inp) - 1]; muts.append(("recorded reads end before the last octet", m))
     m = dup(); m[0]["eof"] = "with-data"; muts.append(("recorded end style contradicts the recorded reads", m))
+    # the same for a recording in the run-length form: "> *" + 70 000 x "a" + "*\\nc"
+    keep = []       # recordings that differ from the original only in how they are written: must be ACCEPTED
+    big = 70000
+    runs = [[62, 1], [32, 1], [42, 1], [97, big], [42, 1], [10, 1], [99, 1]]
+    json.dump({"input": [], "input_runs": runs, "api": "decoder"}, open(case, "w"))
+    rbase = ctx.path("selftest_runs.ndjson")
+    ctx.run_driver(drv, ["replay", case, rbase, ctx.path("selftest_res.json")], env={"STYLING_SHARDS": "1"})
+    rtrs = verif.split_traces(verif.read_ndjson(rbase + ".0"))
+    rgood = [{k: v for k, v in e.items() if k != "_line"} for e in rtrs[1]]
+    li = [k for k, e in enumerate(rgood) if e.get("ev") == "tok" and [97, big] in e["data"]]
+    if rgood[0].get("form") != "runs":
+        raise verif.Undecided("binding self-test: the driver did not record the long document in the run-length form")
+    if li:
+        i = li[0]
+        def rdup():
+            return json.loads(json.dumps(rgood))
+        def setrun(m, octet, count):
+            m[i]["data"] = [[octet, count] if r == [97, big] else r for r in m[i]["data"]]
+        m = rdup(); setrun(m, 97, big - 1); muts.append(("run-length form: one octet of the long line lost", m))
+        m = rdup(); setrun(m, 97, big + 1); muts.append(("run-length form: one octet of the long line duplicated", m))
+        m = rdup(); setrun(m, 98, big); muts.append(("run-length form: the octet of the long run changed", m))
+        m = rdup(); m[i]["data"] = [x for r in m[i]["data"] for x in ([[97, 4096], [0, 1], [97, big - 4097]] if r == [97, big] else [r])]
+        muts.append(("run-length form: one octet in the middle of the long line altered", m))
+        m = rdup(); del m[i + 1:-1]; m[-1]["err"] = "bufio.Scanner: token too long"; muts.append(("run-length form: decoding ends after the long token", m))
+        m = rdup(); m[0]["ref"] = json.loads(json.dumps(rgood[1:]))
+        m[i]["data"] = [x for r in m[i]["data"] for x in ([[97, big - 1]] if r == [97, big] else [r])]
+        m.insert(i + 1, dict(m[i], data=[[97, 1]])); muts.append(("run-length form: the long line comes in two tokens, the reference run has one", m))
+        m = rdup(); m[0]["input"] = [[97, big + 1] if r == [97, big] else r for r in m[0]["input"]]
+        muts.append(("run-length form: the document is one octet longer than what the reads delivered", m))
+        m = rdup(); m[0]["ref"] = json.loads(json.dumps(rgood[1:]))
+        m[i]["data"] = [x for r in m[i]["data"] for x in ([[97, 1], [97, big - 2], [97, 0], [97, 1]] if r == [97, big] else [r])]
+        keep.append(("run-length form: the long run written as adjacent runs of the same octet (same octets, same reference)", m))
     p = ctx.path("selftest_mut.ndjson")
     line = 0
+    allt = [("unchanged", good)] + ([("unchanged (run-length form)", rgood)] if li else []) + keep + muts
     with open(p, "w") as f:
-        for k, (_, tr) in enumerate([("unchanged", good)] + muts):
+        for k, (_, tr) in enumerate(allt):
             tr[0]["t"] = k + 1
             tr[0]["end"] = line + len(tr) + 1
             for e in tr:
                 f.write(json.dumps(e) + "\n")
             line += len(tr)
     rej, _ = validate(ctx, p, "TrStyling")
+    nkeep = len(allt) - len(muts)
     if 1 in rej:
         raise verif.Undecided("binding self-test: the unchanged recording was rejected: %s" % (rej[1],))
-    missed = [muts[k - 2][0] for k in range(2, 2 + len(muts)) if k not in rej]
+    if li and 2 in rej:
+        # the recording of the real decoder over the long document is itself rejected: that is an
+        # observation of the tree under test (a verdict like any other rejected trace), and the
+        # corruptions derived from it say nothing
+        ctx.violation("%s | decoder, input %s (%d octets), reader whole: observed %s" % (
+            rej[2][1], show_runs(runs), sum(c for _, c in runs), show(rgood[1:])[:400]),
+            {"family": "styling", "input": [], "input_runs": runs, "api": "decoder", "reader": "whole",
+             "clause": rej[2][1], "observed": rgood[1:]})
+        return len([k for k in range(nkeep + 1, len(allt) + 1) if k in rej and not allt[k - 1][0].startswith("run-length form")])
+    for k in range(2, nkeep + 1):
+        if k in rej:
+            raise verif.Undecided("binding self-test: recording '%s' was rejected: %s" % (allt[k - 1][0], rej[k],))
+    missed = [allt[k - 1][0] for k in range(nkeep + 1, len(allt) + 1) if k not in rej]
     if missed:
         raise verif.Undecided("binding self-test: corrupted recordings ACCEPTED: %s" % missed)
     return len(muts)
@@ -195,8 +279,8 @@ def selftest(ctx, drv):
 
 def run(ctx):
     quick = ctx.tier == "quick"
-    mc = ctx.model_check("MCStyling", MC_CFG % {"maxev": 5 if quick else 6},
-                         ["C17_Lossless", "C17_WellBracketed", "C17_StepRules", "named good/bad streams (ASSUME)"],
+    mc = ctx.model_check("MCStyling", MC_CFG % {"maxev": 5 if quick else 6, "rmaxev": 3 if quick else 4},
+                         ["C17_Lossless", "C17_RunsFaithful", "C17_WellBracketed", "C17_StepRules", "named good/bad streams, run-length operators (ASSUME)"],
                          timeout=1500, name="MCStyling")
     drv = ctx.go_build("styling")
     base = ctx.path("trace.ndjson")
@@ -205,7 +289,8 @@ def run(ctx):
     if ctx.replay:
         case = json.load(open(ctx.replay))["case"]
         cf = ctx.path("case.json")
-        json.dump({"input": case["input"], "api": case["api"], "reader": case.get("reader", "")}, open(cf, "w"))
+        json.dump({"input": case["input"], "input_runs": case.get("input_runs") or [], "api": case["api"],
+                   "reader": case.get("reader", "")}, open(cf, "w"))
         shards = par = 1
         ctx.run_driver(drv, ["replay", cf, base, out], env={"STYLING_SHARDS": "1"}, timeout=600)
     else:
@@ -215,6 +300,10 @@ def run(ctx):
         res["inputs"], res["runs"], res["same_as_whole"], res["differ_from_whole"], res["inputs_with_differences"],
         res["traces"], res["events"]))
     styles = res.get("runs_by_eof_style", {})
+    nbig = res["inputs_by_class"].get("very long lines (run-length form)", 0)
+    if not ctx.replay and not (nbig > 0 and res.get("runs_of_run_length_documents", 0) >= 4 * nbig):
+        raise verif.Undecided("the length dimension is degenerate: %d documents with very long lines, %s runs of them" % (
+            nbig, res.get("runs_of_run_length_documents")))
     if not ctx.replay and not (styles.get("separate", 0) > 0 and styles.get("with-data", 0) > 0):
         raise verif.Undecided("the delivery dimension is degenerate: runs by end-of-input style %s" % styles)
     results = validate_shards(ctx, base, shards, par)
@@ -239,10 +328,12 @@ def run(ctx):
         "inputs_by_class": res["inputs_by_class"], "runs_by_end_of_input_style": styles,
         "binding_selftest_corruptions_rejected": nself,
         "exhaustive": True, "exhaustive_scope": "all strings of <= %d symbols" % res["exhaustive_len"],
-        "design_check": "MCStyling: arbitrary token-stream generator (tokens of <= 2 octets, any subset of 7 style bits, right or wrong data, end with/without panic) over all 40 inputs of <= 3 symbols of {*, a, newline}, streams of <= %d observations; 5 named good and 11 named bad streams; a named pair of streams of one pre-block document that differ only under a delivery with EOF on the last data (rejected as chunk dependent); 6 legal and 6 illegal named deliveries" % (5 if quick else 6),
-        "rule": "documents = every string of <= %d symbols over {* _ ~ ` > space newline a no-break-space 0xC2} + %d seeded strings of %d..%d symbols + 16 fence/quote/span templates x 10 x 10 fillers + %d pre-block documents (opening fence with/without info string; 0..2 inner lines out of {a, empty, ```go, ````, ``` x, > ```, ``, space```}; closed or unterminated; an optional following line out of {b, *b*, > q, ```go}; every line under the quote prefix '', '> ', '>> ' (thorough: also '>', '> > '), the following line under the same prefix or none; with and without trailing newline; + seeded longer blocks whose quote prefix changes per line) + 28 lines of 4095..70000 octets (decoder only); each through NewDecoder and through Scan+bufio.Scanner. Deliveries of a document = cuts x end-of-input style: cuts = one big read (reference: bytes.Reader), every 2-way split (documents <= 64 octets), 1 octet per Read, pieces of 2 and 3 octets, 1-4 seeded random multi-way cuts, iotest.OneByteReader (long lines: pieces of 1000/4096, HalfReader); end style = io.EOF in a separate empty read | io.EOF together with the last data (own reader and iotest.DataErrReader) ; (0, nil) reads in front of every piece and of the EOF (every split of the small and structured documents, the random cuts). Every reader is wrapped in a recorder: each trace carries the reads the decoder performed, TLC requires them to be a legal delivery (LegalDelivery). TLC validated: every reference run, every DISTINCT run that differs from its reference (carrying the reference; rejected under C17_ChunkIndependent), and a 0.2%% seeded sample of the runs the driver found equal to their reference (carrying the reference; accepted). Equality of the remaining runs with their reference was established by the driver by comparing an injective encoding of (data, mask, quote, info, end) sequences. distinct_nontrivial = distinct observation sequences" % (
-            res["exhaustive_len"], res["sampled_n"], res["exhaustive_len"] + 1, res["sampled_len"], res["inputs_by_class"].get("pre-block documents", 0)),
-        "samples": (res["samples"] or [])[:2],
+        "design_check": "MCStyling: arbitrary token-stream generator (tokens of <= 2 octets, any subset of 7 style bits, right or wrong data, end with/without panic) over all 40 inputs of <= 3 symbols of {*, a, newline}, streams of <= %d observations; 5 named good and 11 named bad streams; a named pair of streams of one pre-block document that differ only under a delivery with EOF on the last data (rejected as chunk dependent); 6 legal and 6 illegal named deliveries; run-length form: the same generator over all 160 normal run sequences over {*, a, newline} (<= 2 runs with counts 1, 2, 2^20+1; 3 runs with counts 1, 2^20+1), tokens ending at run boundaries +-1 or within 2 octets, handed over in normal form / first run split / first octet altered / one octet more / one octet fewer, streams of <= %d tokens, C17_RunsFaithful re-checks accepted streams octet by octet where the document is <= 64 octets; the run-length operators (length, normal form, sub-run, merge, ends-line, next-piece) against their octet meaning over all sequences of <= 3 runs with counts 0..3; 9 named good and 10 named bad streams over documents with a line of 2^20+1 octets (token buffer capped: line and rest never delivered / line cut to 2^20; octet lost, duplicated, altered; line split in two tokens under another delivery; span left open)" % (5 if quick else 6, 3 if quick else 4),
+        "rule": "documents = every string of <= %d symbols over {* _ ~ ` > space newline a no-break-space 0xC2} + %d seeded strings of %d..%d symbols + 16 fence/quote/span templates x 10 x 10 fillers + %d pre-block documents (opening fence with/without info string; 0..2 inner lines out of {a, empty, ```go, ````, ``` x, > ```, ``, space```}; closed or unterminated; an optional following line out of {b, *b*, > q, ```go}; every line under the quote prefix '', '> ', '>> ' (thorough: also '>', '> > '), the following line under the same prefix or none; with and without trailing newline; + seeded longer blocks whose quote prefix changes per line) + 28 lines of 4095..70000 octets (decoder only) + %d documents with a very long line (lengths around powers of two: 2^20-1, 2^20, 2^20+1, 2^22+1; thorough also 2^21-1, 2^21+1, 2^22-1, 2^22, 2^23+1, 2^24+1; each plain / followed by a short line / inside a span / inside a quote; decoder only; deliveries: one big read with separate EOF (reference), EOF with the data, two empty reads first, pieces of 4096 octets (65536 from 2^21 octets on) with either end style, iotest.HalfReader; iotest.DataErrReader - at most 1024 octets per Read - is left out for them) RECORDED IN THE RUN-LENGTH FORM - document, token data and info as [octet, count] runs - and judged by TLC over the runs (length = sum of counts, concatenation = merge of adjacent equal runs, 'next piece of the input' = equal normal forms of the token's runs and of the runs cut out of the document); all %d runs of those are validated by TLC; each other document through NewDecoder and through Scan+bufio.Scanner. Deliveries of a document = cuts x end-of-input style: cuts = one big read (reference: bytes.Reader), every 2-way split (documents <= 64 octets), 1 octet per Read, pieces of 2 and 3 octets, 1-4 seeded random multi-way cuts, iotest.OneByteReader (long lines: pieces of 1000/4096, HalfReader); end style = io.EOF in a separate empty read | io.EOF together with the last data (own reader and iotest.DataErrReader) ; (0, nil) reads in front of every piece and of the EOF (every split of the small and structured documents, the random cuts). Every reader is wrapped in a recorder: each trace carries the reads the decoder performed, TLC requires them to be a legal delivery (LegalDelivery). TLC validated: every reference run, every DISTINCT run that differs from its reference (carrying the reference; rejected under C17_ChunkIndependent), and a 0.2%% seeded sample of the runs the driver found equal to their reference (carrying the reference; accepted). Equality of the remaining runs with their reference was established by the driver by comparing an injective encoding of (data, mask, quote, info, end) sequences. distinct_nontrivial = distinct observation sequences" % (
+            res["exhaustive_len"], res["sampled_n"], res["exhaustive_len"] + 1, res["sampled_len"], res["inputs_by_class"].get("pre-block documents", 0),
+            nbig, res.get("runs_of_run_length_documents", 0)),
+        "very_long_line_documents": nbig, "runs_of_very_long_line_documents_all_validated_by_tlc": res.get("runs_of_run_length_documents", 0),
+        "samples": (res["samples"] or [])[:2] + (res.get("run_length_samples") or [])[:1],
     }, assumptions=["a token carries at most one span directive (the documented token model of package styling)",
                     "'inside a preformatted span' is judged on the monitor's span stack; 'inside a preformatted block' on the token's own BlockPre bit",
                     "Next is given up after 2*len+16 calls (runaway)",
